@@ -11,6 +11,9 @@ import (
 	"verifharness/internal/gen"
 	"verifharness/internal/pbt"
 	"verifharness/internal/run"
+
+	"github.com/rulego/streamsql"
+	"github.com/rulego/streamsql/types"
 )
 
 // Case: CountingWindow(N) with 0..2 key columns.
@@ -19,6 +22,8 @@ type Case struct {
 	Keys   []string  `json:"keys"`
 	Rows   []gen.Row `json:"rows"` // id (int), key columns
 	Pauses []int     `json:"pauses"`
+	OutBuf int       `json:"out_buf,omitempty"` // window output buffer size (0 = default)
+	SinkUs int       `json:"sink_us,omitempty"` // sink delay per delivery (backpressure on the window output)
 }
 
 const sentinel = "⁣sentinel⁣"
@@ -53,6 +58,9 @@ func genCase(t *rapid.T) Case {
 		c.Keys = append(c.Keys, fmt.Sprintf("k%d", i+1))
 		kinds[i] = rapid.IntRange(0, 2).Draw(t, "kind")
 	}
+	if nk == 2 && rapid.Bool().Draw(t, "bothStrings") {
+		kinds[0], kinds[1] = 0, 0
+	}
 	// a small pool of key tuples so that keys repeat and interleave
 	npool := 1
 	if nk > 0 {
@@ -67,6 +75,15 @@ func genCase(t *rapid.T) Case {
 				pool[i][j] = gen.Str("e")
 			}
 		}
+	}
+	// two string key columns: every third case plants a pair of tuples that collide under a naive join
+	if nk == 2 && kinds[0] == 0 && kinds[1] == 0 && npool >= 2 && rapid.IntRange(0, 1).Draw(t, "plant") == 0 {
+		cp := gen.CollidingPair().Draw(t, "collide")
+		pool[0], pool[1] = cp[0], cp[1]
+	}
+	if rapid.IntRange(0, 3).Draw(t, "backpressure") == 0 {
+		c.OutBuf = rapid.SampledFrom([]int{1, 2, 4}).Draw(t, "outbuf")
+		c.SinkUs = rapid.SampledFrom([]int{50, 200, 1000}).Draw(t, "sinkus")
 	}
 	n := rapid.IntRange(0, 60).Draw(t, "len")
 	if rapid.IntRange(0, 3).Draw(t, "forceMultiple") == 0 {
@@ -140,7 +157,20 @@ func valEq(got any, want gen.Val) bool {
 }
 
 func runCase(c Case) (res pbt.Result) {
-	in, err := run.Open(sql(c))
+	var opts []streamsql.Option
+	if c.OutBuf > 0 {
+		pc := types.DefaultPerformanceConfig()
+		pc.BufferConfig.WindowOutputSize = c.OutBuf
+		pc.OverflowConfig.Strategy = "block"
+		pc.OverflowConfig.BlockTimeout = 0
+		pc.OverflowConfig.AllowDataLoss = false
+		opts = []streamsql.Option{streamsql.WithCustomPerformance(pc)}
+	}
+	in, err := run.Open(sql(c), opts...)
+	if err == nil && c.SinkUs > 0 {
+		d := time.Duration(c.SinkUs) * time.Microsecond
+		in.S.AddSyncSink(func([]map[string]any) { time.Sleep(d) })
+	}
 	if err != nil {
 		res.Add(pbt.D("execute-error", "%v for %s", err, sql(c)))
 		return
@@ -289,6 +319,12 @@ func runCase(c Case) (res pbt.Result) {
 	if len(groups) >= 3 {
 		res.Class("groups>=3")
 	}
+	if c.OutBuf > 0 {
+		res.Class("backpressure")
+	}
+	if len(features(c)) > 0 {
+		res.Class("colliding-pair")
+	}
 	return
 }
 
@@ -321,12 +357,12 @@ func features(c Case) []string {
 }
 
 var spec = pbt.Spec[Case]{
-	ID:   "C09",
-	Rule: "generated: N in 1..7, 0-2 key columns (one scalar type per column; strings from a separator-bearing pool, ints, floats, NULL, missing), 0-60 rows drawn from a pool of 1-5 key tuples, producer pauses; oracle: per typed key tuple the i-th delivery is rows (i-1)N+1..iN (collect/count/first/last/sum/key columns), no remainder delivery, no row twice. non-trivial = >=2 distinct key tuples and at least one key reaching a second batch; distinct = hash of the case JSON",
+	ID:          "C09",
+	Rule:        "generated: N in 1..7, 0-2 key columns (one scalar type per column; strings from a separator-bearing pool, ints, floats, NULL, missing), 0-60 rows drawn from a pool of 1-5 key tuples, producer pauses; oracle: per typed key tuple the i-th delivery is rows (i-1)N+1..iN (collect/count/first/last/sum/key columns), no remainder delivery, no row twice. non-trivial = >=2 distinct key tuples and at least one key reaching a second batch; distinct = hash of the case JSON",
 	Assumptions: []string{"input never dropped: WithOverflowStrategy(block,0)", "a sentinel key's full batch acts as barrier (window goroutine is sequential)", "missing key column is the same group as NULL"},
-	Gen:      genCase,
-	Run:      runCase,
-	Features: features,
+	Gen:         genCase,
+	Run:         runCase,
+	Features:    features,
 }
 
 func TestProp(t *testing.T)    { pbt.RunProp(t, spec) }
